@@ -166,9 +166,25 @@ pub fn corpus(quick: bool) -> Vec<Gen> {
             out.push(Gen { text: format!("{special} = _{{ {} }} r = {{ \"a\" ~ \"b\" | \" \" }}", fill(c, "r")), class: "special-cycle" });
         }
     }
-    // plain size-ordered corpus, stack-free
+    // left-recursive cycles through many rules (2..40), bare and behind a nullable prefix
+    for n in (2..=20).chain([25, 33, 40]) {
+        for (pre, class_ok) in [("", false), ("\"a\"? ~ ", false), ("\"a\" ~ ", true)] {
+            let mut g = String::new();
+            for i in 0..n {
+                g.push_str(&format!("c{i} = {{ {pre}c{} }} ", (i + 1) % n));
+            }
+            g.push_str("r = { \"b\" | c0 }");
+            let _ = class_ok;
+            out.push(Gen { text: g, class: "long-cycle" });
+        }
+    }
+    // plain size-ordered corpus, stack-free (under grammar-extras also below a node tag)
     let max = if quick { 4 } else { 5 };
-    let by = gram::bodies_by_size(gram::PLAIN_LEAVES, &gram::UNARY[..9], max);
+    let mut leaves: Vec<&str> = gram::PLAIN_LEAVES.to_vec();
+    leaves.push("^\"\"");
+    let mut unary: Vec<(&str, &str)> = gram::UNARY[..9].to_vec();
+    unary.extend(gram::EXTRA_UNARY.iter().copied());
+    let by = gram::bodies_by_size(&leaves, &unary, max);
     for (i, level) in by.iter().enumerate() {
         for b in level {
             // callee rules: progressing; nullable; recursive through r; non-progressing but able to
